@@ -557,7 +557,7 @@ impl Agg {
 }
 
 pub fn clip(s: &str, max: usize) -> String {
-    if s.len() <= max {
+    if s.len() <= max || std::env::var("VERIF_FULL").is_ok() {
         return s.to_string();
     }
     let mut end = max;
